@@ -289,6 +289,7 @@ def pbf_rules(ck, P, rule="R-PBF"):
                      "unknown (field, wire) combinations are rejected", "unknown fields fall through silently", ir.loc(m))
     zigzag_rules(ck, P, rule)
     varint_rules(ck, P, rule)
+    pbf_primitive_rules(ck, P, rule)
     # defaults
     rd = [b for b in P.bodies if b["q"].endswith("vector_tile::layer::VectorTileLayer::read")]
     wr = [b for b in P.bodies if b["q"].endswith("vector_tile::layer::VectorTileLayer::to_blob")]
@@ -446,6 +447,146 @@ def varint_rules(ck, P, rule="R-PBF"):
         okw = bool(cond_ok) and byte_ok and len(sh) == 1 and bool(wa) and order[id(wa[0])] < order[id(sh[0])] and last_ok
         why = "loop condition ok=%s, continuation byte ok=%s, shift by 7=%s, last byte ok=%s" % (bool(cond_ok), byte_ok, len(sh) == 1, last_ok)
     ck.check(okw, rule, "varint|write", "write_varint: while value >= 0x80 { emit (value & 0x7F) | 0x80; value >>= 7 } then the last byte", "write_varint does not encode base-128 varints (%s)" % why, ir.loc(b))
+
+
+def _io_calls(body, skip=("context", "with_context")):
+    """method calls of a body in source order, without the error-context adaptors: (node, receiver local hid or None, name)"""
+    out = []
+    for n in ir.walk_nodes(body):
+        if n.get("k") == "mcall" and n.get("name") not in skip:
+            out.append((n, ir.local_hid(ir.strip(n["recv"])) if "recv" in n else None, n.get("name")))
+    return out
+
+
+def _len_of(n):
+    """hid of the local whose `.len()` the expression is (through casts), else None"""
+    n = ir.strip(n)
+    while n.get("k") == "cast":
+        n = ir.strip(n["e"])
+    if n.get("k") == "mcall" and n.get("name") == "len" and not n.get("a"):
+        return ir.local_hid(ir.strip(n["recv"]))
+    return None
+
+
+def pbf_primitive_rules(ck, P, rule="R-PBF"):
+    """the length-delimited and key primitives every message codec is built from (protobuf encoding guide): a LEN field is
+    varint(byte length of the payload) followed by exactly that payload; a key is (field << 3) | wire.  The accepted shapes are
+    the straight-line ones of today's tree; a prefix that is computed from anything but the payload's own `.len()` is not decided
+    and is reported."""
+    W = "io::value_writer::ValueWriter::"
+    R = "io::value_reader::ValueReader::"
+    names_w = ["write_pbf_key", "write_pbf_blob", "write_pbf_string", "write_pbf_packed_uint32"]
+    names_r = ["read_pbf_key", "read_pbf_blob", "read_pbf_string", "read_pbf_packed_uint32", "get_pbf_sub_reader"]
+    B = {}
+    for nm in names_w:
+        B[nm] = [b for b in P.bodies if b["q"].endswith(W + nm)]
+    for nm in names_r:
+        B[nm] = [b for b in P.bodies if b["q"].endswith(R + nm)]
+    if not ck.anchor(rule, "pbf primitives (key, blob, string, packed uint32, sub reader)", [x for v in B.values() for x in v], 9):
+        return
+
+    def branches(b):
+        return [n for n in ir.walk_nodes(b["body"]) if n.get("k") in ("if", "match", "loop", "while", "for", "closure", "ret", "break", "continue")]
+
+    def params(b):
+        return [x for p_ in b["params"] for x in ir.pat_binds(p_)]
+
+    # --- writer: LEN payloads
+    for nm, payload_call in (("write_pbf_blob", "write_blob"), ("write_pbf_string", "write_string")):
+        b = B[nm][0]
+        ps = [x for x in params(b) if x["name"] != "self"]
+        selfh = [x["hid"] for x in params(b) if x["name"] == "self"]
+        calls = [(n, r, m) for n, r, m in _io_calls(b["body"]) if m not in ("len",)]
+        ok = len(ps) == 1 and len(calls) == 2 and not branches(b) and [m for _, _, m in calls] == ["write_varint", payload_call] and \
+            all(r in selfh for _, r, _ in calls) and _len_of(calls[0][0]["a"][0]) == ps[0]["hid"] and ir.local_hid(ir.strip(calls[1][0]["a"][0])) == ps[0]["hid"]
+        ck.check(ok, rule, "prim|" + nm, "%s writes varint(payload.len()) and then the payload itself, unconditionally" % nm,
+                 "%s is not `write_varint(payload.len()); %s(payload)` on self: the length prefix and the bytes that follow it can disagree (calls: %s)" %
+                 (nm, payload_call, [m for _, _, m in calls]), ir.loc(b))
+    # --- writer: key
+    b = B["write_pbf_key"][0]
+    ps = [x for x in params(b) if x["name"] != "self"]
+    calls = _io_calls(b["body"])
+    ok = False
+    if len(ps) == 2 and len(calls) == 1 and calls[0][2] == "write_varint" and not branches(b):
+        a = ir.unparen(ir.strip(calls[0][0]["a"][0]))
+        if a.get("k") == "bin" and a.get("op") in ("|", "+"):
+            def base(x):
+                x = ir.unparen(ir.strip(x))
+                while x.get("k") in ("cast", "paren"):
+                    x = ir.unparen(ir.strip(x["e"]))
+                return x
+            l, r = base(a["l"]), base(a["r"])
+            sh, lo = (l, r) if l.get("k") == "bin" else (r, l)
+            ok = sh.get("k") == "bin" and sh.get("op") == "<<" and ir.local_hid(base(sh["l"])) == ps[0]["hid"] and ir.const_eval(sh["r"], {}) == 3 and ir.local_hid(lo) == ps[1]["hid"] and \
+                ir.strip(sh["l"]).get("t") == "u64"
+    ck.check(ok, rule, "prim|write_pbf_key", "write_pbf_key writes varint((field as u64) << 3 | wire)", "write_pbf_key does not write (field << 3) | wire as one varint (shift in u64)", ir.loc(b))
+    # --- writer: packed uint32 = LEN payload built in a scratch writer
+    b = B["write_pbf_packed_uint32"][0]
+    ps = [x for x in params(b) if x["name"] != "self"]
+    selfh = [x["hid"] for x in params(b) if x["name"] == "self"]
+    scratch = [n for n in ir.walk_nodes(b["body"]) if n.get("k") == "let" and n["pat"].get("k") == "bind" and "init" in n and
+               ir.strip(n["init"]).get("k") == "call" and (ir.strip(n["init"]).get("q") or "").startswith("versatiles_core::io::value_writer_blob::ValueWriterBlob::new")]
+    loops = [n for n in ir.walk_nodes(b["body"]) if n.get("k") == "for"]
+    other = [n for n in branches(b) if n.get("k") != "for"]
+    ok, why = False, "not a scratch writer + one loop + write_pbf_blob"
+    if len(ps) == 1 and len(scratch) == 1 and len(loops) == 1 and not other:
+        sh = scratch[0]["pat"]["hid"]
+        lp = loops[0]
+        it = ir.strip(lp["iter"])
+        while it.get("k") == "mcall" and it.get("name") in ("iter", "copied", "cloned"):
+            it = ir.strip(it["recv"])
+        over_data = ir.local_hid(it) == ps[0]["hid"]
+        vb = [x["hid"] for x in ir.pat_binds(lp["pat"])]
+        inl = [(n, r, m) for n, r, m in _io_calls(lp["body"])]
+
+        def val(x):
+            x = ir.unparen(ir.strip(x))
+            while x.get("k") in ("cast", "deref"):
+                x = ir.unparen(ir.strip(x["e"]))
+            return ir.local_hid(x)
+        in_ok = len(inl) == 1 and inl[0][1] == sh and inl[0][2] == "write_varint" and val(inl[0][0]["a"][0]) in vb and len(vb) == 1
+        outl = [(n, r, m) for n, r, m in _io_calls(b["body"]) if not ir.contains(lp, lambda z: z is n)]
+        out_ok = [m for _, _, m in outl] == ["write_pbf_blob", "into_blob"] and outl[0][1] in selfh and outl[1][1] == sh and ir.contains(outl[0][0]["a"][0], lambda z: z is outl[1][0])
+        order = {id(y): i for i, y in enumerate(ir.walk_nodes(b["body"]))}
+        ok = over_data and in_ok and out_ok and order[id(lp)] < order[id(outl[0][0])]
+        why = "loop over the data=%s, loop writes varint(value) to the scratch writer=%s, scratch blob written with write_pbf_blob after the loop=%s" % (over_data, in_ok, out_ok)
+    ck.check(ok, rule, "prim|write_pbf_packed_uint32", "packed uint32 = every value as a varint into a scratch writer, whose bytes are then written with write_pbf_blob (length measured, not computed)",
+             "write_pbf_packed_uint32 does not measure its payload (%s): a computed length prefix that is off for some values truncates or overruns the tag list" % why, ir.loc(b))
+    # --- reader
+    for nm, take in (("read_pbf_blob", "read_blob"), ("read_pbf_string", "read_string"), ("get_pbf_sub_reader", "get_sub_reader")):
+        b = B[nm][0]
+        calls = _io_calls(b["body"])
+        lets = [n for n in ir.walk_nodes(b["body"]) if n.get("k") == "let" and n["pat"].get("k") == "bind"]
+        ok = len(calls) == 2 and [m for _, _, m in calls] in (["read_varint", take], [take, "read_varint"]) and not branches(b)
+        if ok:
+            rv = [n for n, _, m in calls if m == "read_varint"][0]
+            tk = [n for n, _, m in calls if m == take][0]
+            a = ir.strip(tk["a"][0])
+            direct = ir.contains(a, lambda z: z is rv) and not ir.contains(a, lambda z: z.get("k") in ("bin", "un", "cast"))
+            via = len(lets) == 1 and ir.contains(lets[0]["init"], lambda z: z is rv) and not ir.contains(lets[0]["init"], lambda z: z.get("k") in ("bin", "un", "cast")) and \
+                ir.local_hid(a) == lets[0]["pat"]["hid"]
+            ok = direct or via
+        ck.check(ok, rule, "prim|" + nm, "%s takes exactly varint() bytes" % nm, "%s does not pass the decoded length prefix unchanged to %s" % (nm, take), ir.loc(b))
+    b = B["read_pbf_key"][0]
+    shr = [n for n in ir.walk_nodes(b["body"]) if n.get("k") == "bin" and n.get("op") == ">>"]
+    msk = [n for n in ir.walk_nodes(b["body"]) if n.get("k") == "bin" and n.get("op") == "&"]
+    tup = [n for n in ir.walk_nodes(b["body"]) if n.get("k") == "tup"]
+    ok = len(shr) == 1 and len(msk) == 1 and ir.const_eval(shr[0]["r"], {}) == 3 and ir.const_eval(msk[0]["r"], {}) == 7 and len(tup) == 1 and len(tup[0].get("es", tup[0].get("a", ()))) == 2 and \
+        ir.strip(shr[0]["l"]).get("t") == "u64" and len([1 for _, _, m in _io_calls(b["body"]) if m == "read_varint"]) == 1
+    if ok:
+        es = tup[0].get("es", tup[0].get("a"))
+        ok = ir.contains(es[0], lambda z: z is shr[0]) and ir.contains(es[1], lambda z: z is msk[0])
+    ck.check(ok, rule, "prim|read_pbf_key", "read_pbf_key returns (varint >> 3, varint & 7)", "read_pbf_key does not split the key varint into (value >> 3, value & 7)", ir.loc(b))
+    b = B["read_pbf_packed_uint32"][0]
+    calls = [m for _, _, m in _io_calls(b["body"])]
+    wl = [n for n in ir.walk_nodes(b["body"]) if n.get("k") == "while"]
+    ok = len(wl) == 1 and sorted(calls) == sorted(["get_pbf_sub_reader", "has_remaining", "push", "read_varint"])
+    if ok:
+        c = ir.unparen(ir.strip(wl[0]["c"]))
+        ok = c.get("k") == "mcall" and c.get("name") == "has_remaining" and sorted(m for _, _, m in _io_calls(wl[0]["body"])) == ["push", "read_varint"] and \
+            not [n for n in ir.walk_nodes(wl[0]["body"]) if n.get("k") in ("if", "match", "break", "continue", "ret")]
+    ck.check(ok, rule, "prim|read_pbf_packed_uint32", "packed uint32 is read as varints until the length-delimited sub reader is exhausted",
+             "read_pbf_packed_uint32 is not `while sub.has_remaining() { push(sub.read_varint()) }` on the length-delimited sub reader (calls: %s)" % calls, ir.loc(b))
 
 
 def zigzag_rules(ck, P, rule="R-PBF"):
